@@ -20,11 +20,13 @@ type Vector struct {
 	Fam   string   `json:"fam"`
 	Lang  string   `json:"lang"` // sdl | exe | val
 	Toks  []string `json:"toks"`
-	Sep   string   `json:"sep"`   // "" = every layout of the universe, else the name of one layout
-	Vn    []string `json:"vn"`    // variable names the variable maps range over
-	Vd    int      `json:"vd"`    // depth bound of the JSON-shaped values in the variable maps
-	Cls   string   `json:"cls"`   // valid | mutated | raw
-	Exp   string   `json:"exp"`   // always "returns"
+	Sep   string   `json:"sep"`  // "" = every layout of the universe, else the name of one layout
+	Vn    []string `json:"vn"`   // variable names the variable maps range over
+	Vd    int      `json:"vd"`   // depth bound of the JSON-shaped values in the variable maps
+	Cls   string   `json:"cls"`  // valid | mutated | raw
+	Exp   string   `json:"exp"`  // always "returns"
+	Unit  []string `json:"unit"` // family deep: after the tokens, this unit is written Rep times
+	Rep   int      `json:"rep"`
 	Allow []string `json:"allow"` // deviations (DocGen!Allowed under the known deviations) whose sites are admitted besides "returns"
 }
 
